@@ -848,3 +848,60 @@ func H_C04_include_cycle(k int) {
 		zzrt.Cover("dag")
 	}
 }
+
+// H_C04_ambiguous: two included files of the same base name (different directories) define
+// constants and enums; 'c.' + a free byte names a constant of the first, of the second, of both
+// (ambiguous: must be diagnosed) or of neither (undefined: must be diagnosed). pos: 0 constant
+// value, 1 field default. Likewise 'c.N.' + free byte for enum values through the include.
+func H_C04_ambiguous(pos int) {
+	files := map[string]string{
+		"d1/c.thrift": "const i32 L = 1\nconst i32 K = 2\nenum N { P, R }\n",
+		"d2/c.thrift": "const i32 L = 3\nconst i32 J = 4\nenum N { P, Q }\n",
+	}
+	b := zzrt.Byte("b")
+	zzrt.Assume(b >= 'A' && b <= 'Z')
+	viaEnum := zzrt.Bool("enum")
+	id := "c." + string([]byte{b})
+	if viaEnum {
+		id = "c.N." + string([]byte{b})
+	}
+	main := "include \"d1/c.thrift\"\ninclude \"d2/c.thrift\"\n"
+	ty := "i32"
+	if viaEnum {
+		ty = "i64"
+	}
+	if pos == 0 {
+		main += "const " + ty + " M = " + id + "\n"
+	} else {
+		main += "struct SS { 1: " + ty + " f = " + id + " }\n"
+	}
+	files["a.thrift"] = main
+	ast, err := parser.ParseBatchString("a.thrift", files, nil)
+	zzrt.Assert(err == nil, "model parses")
+	err = zzPipeline(ast)
+	n := 0
+	if viaEnum {
+		if b == 'P' {
+			n = 2
+		} else if b == 'R' || b == 'Q' {
+			n = 1
+		}
+	} else {
+		if b == 'L' {
+			n = 2
+		} else if b == 'K' || b == 'J' {
+			n = 1
+		}
+	}
+	switch n {
+	case 2:
+		zzrt.Assert(err != nil, "a constant identifier that two includes of the same name both define is diagnosed as ambiguous")
+		zzrt.Cover("ambiguous")
+	case 1:
+		zzrt.Assert(err == nil, "a constant identifier only one of two same-named includes defines is accepted")
+		zzrt.Cover("one")
+	default:
+		zzrt.Assert(err != nil, "an undefined constant identifier is diagnosed")
+		zzrt.Cover("none")
+	}
+}
